@@ -569,12 +569,12 @@ func genAssignPkg(r *Rng, name string, s *GSpec) *apkg {
 		case 1:
 			a.Faults = append(a.Faults, "ambiguous-copy")
 			c := *m
-			c.Name = m.Name + "dup"
+			c.Name = fmt.Sprintf("%sdup%d", m.Name, len(a.Methods))
 			a.Methods = append(a.Methods, &c)
 		case 2:
 			a.Faults = append(a.Faults, "ambiguous-any")
 			c := *m
-			c.Name = m.Name + "gen"
+			c.Name = fmt.Sprintf("%sgen%d", m.Name, len(a.Methods))
 			c.Params = make([]string, len(m.Params))
 			for i := range c.Params {
 				c.Params[i] = "any"
@@ -586,7 +586,7 @@ func genAssignPkg(r *Rng, name string, s *GSpec) *apkg {
 			for i := 0; i < maxTerms+1+r.Intn(2); i++ {
 				ps = append(ps, "Token")
 			}
-			a.Methods = append(a.Methods, &amethod{Name: fmt.Sprintf("on_%s__orphan", s.Rules[ri].Name), Recv: "p *P",
+			a.Methods = append(a.Methods, &amethod{Name: fmt.Sprintf("on_%s__orphan%d", s.Rules[ri].Name, len(a.Methods)), Recv: "p *P",
 				Params: ps, Results: []string{a.RuleTy[ri]}, MkExpr: a.RuleMk[ri]})
 		case 4:
 			a.Faults = append(a.Faults, "arity+1")
